@@ -411,6 +411,15 @@ def build_scripts(shapes, ushapes, dims, tier, seed, T):
                 clients=[dict(dgrams=[dims["udp"]["small"][0], dict(idle=True), dims["udp"]["small"][1 % len(dims["udp"]["small"])], dims["udp"]["small"][0]])],
                 replies=[dims["udp"]["small"][0]])
     scripts.append(lone)
+    # A SOCKS5 client that has addressed a second target before the first one has answered: the first target takes 150 ms
+    # for its reply, the client does not wait for it (own and shared association; one and two clients)
+    small = dims["udp"]["small"]
+    for assoc, ncl in (("own", 1), ("shared", 2)) if tier == "quick" else (("own", 1), ("own", 2), ("shared", 2), ("shared", 3)):
+        sid += 1
+        cls = [dict(dgrams=[dict(n=small[(k + 0) % len(small)], to=1, nowait=True), dict(n=small[(k + 1) % len(small)], to=2),
+                            dict(n=small[(k + 2) % len(small)], to=1)]) for k in range(ncl)]
+        scripts.append(dict(ev="script", id=sid, proto="udp", mode="socks5", assoc=assoc, clients=cls, replies=[small[0], small[1 % len(small)]],
+                            late=[150, 0]))
     # the background exchanges are started first, so that their waiting overlaps with everything else
     scripts = [s for s in scripts if s.get("bg")] + [s for s in scripts if not s.get("bg")]
     return scripts
